@@ -24,9 +24,9 @@ mutual
   inductive Choice : Ty → Ty → Prop
     | leaf (l : TyL) (ks : List Ty) : isInnerL l = false → Choice (.node l ks) (.node l ks)
     | alt (l : TyL) (ks : List Ty) (a c : Ty) :
-        l.kind = .sum → a ∈ ks → Choice a c → Choice (.node l ks) c
+        l = .sum → a ∈ ks → Choice a c → Choice (.node l ks) c
     | comp (l : TyL) (ks cs : List Ty) :
-        (l.kind = .arrow ∨ l.kind = .generic) → ChoiceList ks cs → Choice (.node l ks) (.node l cs)
+        l ≠ .sum → isInnerL l = true → ChoiceList ks cs → Choice (.node l ks) (.node l cs)
   inductive ChoiceList : List Ty → List Ty → Prop
     | nil : ChoiceList [] []
     | cons (t c : Ty) (ts cs : List Ty) : Choice t c → ChoiceList ts cs → ChoiceList (t :: ts) (c :: cs)
@@ -93,7 +93,7 @@ def specInstances (P : List Prim) (bound : Nat) : List Prim :=
     unit argument and an argument that is a function returning unit -/
 def hasUnitRetArg (t : Ty) : Bool :=
   (arguments t).any (fun a => match a with
-    | .node ⟨.arrow, _⟩ [_, y] => y == Ty.unit
+    | .node .arrow [_, y] => y == Ty.unit
     | _ => false)
 
 def unitSafe (t : Ty) : Bool := !(hasUnitArg t && hasUnitRetArg t)
